@@ -78,7 +78,7 @@ fn main() {
                 mon.step = step;
                 let obs = eng.exec(&line, &mut mon);
                 tally(&line, &obs, &mut outcome_mix, &mut op_mix);
-                writeln!(ops_out, "{line}").unwrap();
+                writeln!(ops_out, "{}", eng.recorded(&line)).unwrap();
                 writeln!(obs_out, "{obs}").unwrap();
                 step += 1;
                 n_ops += 1;
